@@ -239,4 +239,56 @@ def main(tier):
     # terms of the numerator carry (ratio_pairs)
     import ratio_pairs
     ratio_pairs.rule(prog, chk, "C12w", ("src/Variogram/",), 12)
+    # C12d: a request is honoured.  A local container that was just declared (and never filled) is always empty: testing IT for
+    # emptiness where the corresponding argument is meant makes the argument dead (`if (seldirs.empty())` for `dircols`: reducing a
+    # variogram to some of its directions returns all of them)
+    from e1_paths import CFG as _CFG, peel_cond as _peel
+    nd = 0
+    for f in sorted(prog.funcs, key=lambda x: (x.file, x.line)):
+        if f.cfg is None or "src/Variogram/" not in f.file:
+            continue
+        decls = {x["d"]: x for x in f.walk() if x["k"] == "VarDecl" and "Vector" in (x.get("t") or "") and
+                 (not x.get("c") or (x["c"][0] is not None and x["c"][0]["k"] == "Construct" and not [a_ for a_ in call_args(x["c"][0]) if a_ is not None and a_["k"] != "DefaultArg"]))}
+        if not decls:
+            continue
+        g_ = None
+        for x in f.walk():
+            if x["k"] != "If" or x["c"][-3] is None:
+                continue
+            core, pol = _peel(x["c"][-3])
+            if core is None or core["k"] != "MCall" or (core.get("callee") or "").split("::")[-1] != "empty":
+                continue
+            o = call_obj(core)
+            if o is None or o["k"] != "DeclRefExpr" or o.get("d") not in decls:
+                continue
+            d_ = o["d"]
+            if g_ is None:
+                g_ = _CFG(f)
+            if g_.pos_of(decls[d_]) is None or g_.pos_of(core) is None:
+                continue
+
+            def touches(y, d_=d_, core=core):
+                if y["i"] == core["i"]:
+                    return False
+                for z in walk(y):
+                    if z["k"] == "DeclRefExpr" and z.get("d") == d_:
+                        par = f.parent(z)
+                        if par is not None and par["k"] == "MCall" and call_obj(par) is z and (par.get("callee") or "").split("::")[-1] in ("empty", "size"):
+                            continue
+                        return True
+                return False
+            filled = False
+            for y in f.walk():
+                if y["k"] in CALL_KINDS + ("Assign",) and touches(y) and g_.pos_of(y) is not None:
+                    if g_.search(g_.after(decls[d_]), is_target=lambda z, y=y: z["i"] == y["i"]) is not None and \
+                            g_.search(g_.after(y), is_target=lambda z, core=core: z["i"] == core["i"]) is not None:
+                        filled = True
+                        break
+            nd += 1
+            if not filled:
+                chk.analysed(f)
+            chk.ob("C12d", "%s: `%s` is tested after it may have been filled" % (f.name, show(core)), f.loc(x), filled,
+                   detail=None if filled else "`%s` has just been declared and nothing was put in it: the test is always true, its other branch (the one that uses the "
+                   "caller's request) is dead" % o["n"], key="C12d|%s|%s" % (f.name, o["n"]), nontrivial=not filled)
+    chk.floor("C12d", nd, 1)
     return chk.finish()
